@@ -18,7 +18,7 @@ from pyvc.values import (FIN, BoundV, EnumMap, EnumVal, EnvFn, FuncV, Obj, Ref, 
                          fresh_name)
 
 from . import stateview as sv
-from .world import CLASSES, EPS, G, Ghost, NONRETRY, RetryWorld, W, advance_clock, env_raise, install_env
+from .world import CLASSES, EPS, G, Ghost, NONRETRY, RetryWorld, W, advance_clock, env_raise, install_env, trace
 
 SKEY = sv.SKEY
 K_EMIT = SKEY + ".emit"
@@ -56,6 +56,7 @@ def c_emit(it, fv, args, kwargs, node):
     fk = fk_of(it)
     site = f"{it.frames[-1].func.key}@emit" if it.frames else "emit"
     ev = a["event"]
+    trace(it, "emit", ev, a["attempt"], a["sleep_s"], a["klass"], a["exc"], a["stop_reason"], a["cause"])
     evt = sterm(ev)
     p.oblige(f"{site}/C14/no-event-after-terminal", g["n_term"] == 0, prop="C14")
     is_retry = z3.simplify(evt == z3.StringVal("retry"))
@@ -112,6 +113,7 @@ def c_elapsed(it, fv, args, kwargs, node):
         g.inc("elapsed_reads")
         first = g["need_post_sleep_read"]
         g["post_sleep_elapsed"] = z3.If(first, r.s, g["post_sleep_elapsed"])
+        g["post_sleep_t"] = z3.If(first, g["now"], g["post_sleep_t"])
         g["need_post_sleep_read"] = False
     return r
 
@@ -148,6 +150,7 @@ def c_consume(it, fv, args, kwargs, node):
     g, w = G(it), W(it)
     fk = fk_of(it)
     r = fbool("granted")
+    trace(it, "budget.consume")
     g.inc("consume_calls")
     g["tokens"] = g["tokens"] + z3.If(r.t, 1, 0)
     if w.attempt is not None:
@@ -181,7 +184,7 @@ GHOST_MODIFIED_BY_HF = ["strat_calls_attempt", "strat_fn", "strat_ctx_ident", "s
                         "term_sleep", "term_reason_none", "term_reason", "term_class_none", "term_class", "term_exc_none",
                         "term_exc", "term_cause_none", "term_cause", "last_retry_attempt", "last_retry_sleep",
                         "nonretry_seen", "last_fail_class", "last_fail_valid", "now", "last_elapsed", "last_elapsed_t",
-                        "need_post_sleep_read", "post_sleep_elapsed", "remaining_at_decision", "fail_count", "elapsed_reads",
+                        "need_post_sleep_read", "post_sleep_elapsed", "post_sleep_t", "remaining_at_decision", "fail_count", "elapsed_reads",
                         "last_cls", "last_cls_ident", "last_cause", "last_op_was_failure", "fail_ident"]
 
 
@@ -231,7 +234,11 @@ def hf_relation(it, w, pre: sv.View, post: sv.View, a, res, gp: Ghost, gq: Ghost
                           gq["last_elapsed_t"] >= gp["now"], gq["last_elapsed_t"] <= gq["now"])))
     add("ghost/post-sleep-read", "C02",
         z3.And(z3.Implies(gq["need_post_sleep_read"], z3.And(gp["need_post_sleep_read"], gq["elapsed_reads"] == gp["elapsed_reads"])),
-               z3.Implies(z3.Not(gp["need_post_sleep_read"]), gq["post_sleep_elapsed"] == gp["post_sleep_elapsed"])))
+               z3.Implies(z3.Not(gp["need_post_sleep_read"]), z3.And(gq["post_sleep_elapsed"] == gp["post_sleep_elapsed"],
+                                                                     gq["post_sleep_t"] == gp["post_sleep_t"])),
+               z3.Implies(z3.And(gp["need_post_sleep_read"], z3.Not(gq["need_post_sleep_read"])),
+                          z3.And(gq["post_sleep_elapsed"] - (gq["post_sleep_t"] - start_mono) <= EPS / 2,
+                                 (gq["post_sleep_t"] - start_mono) - gq["post_sleep_elapsed"] <= EPS / 2))))
     add("ghost/final-failure-record", "C11",
         z3.And(gq["last_cls"] == K, gq["last_cls_ident"] == a["cls_ident"], gq["last_cause"] == cause, gq["last_op_was_failure"],
                gq["fail_ident"] == z3.If(is_exc_cause, a["exc"][1] if a["exc"][1] is not None else z3.IntVal(-1),
@@ -355,6 +362,7 @@ def c_handle_failure(it, fv, args, kwargs, node):
     st = args[0]
     w, g, p = W(it), G(it), it.path
     a = hf_args_view(it, kwargs["classification"], kwargs["attempt"], kwargs["cause"], kwargs["exc"], kwargs["result"])
+    trace(it, "_handle_failure", kwargs["classification"], kwargs["attempt"], kwargs["cause"], kwargs["exc"], kwargs["result"])
     site = f"{fk_of(it)}/call:_handle_failure"
     for n, prop, f in hf_requires(it, st, a, g):
         p.oblige(f"{site}/requires/{n}", f, prop=prop)
